@@ -115,7 +115,7 @@ pub fn current_step() -> &'static str {
     STEP.with(|s| s.get())
 }
 
-#[derive(Clone, Debug)]
+#[derive(Clone, Debug, PartialEq)]
 pub struct Caught {
     pub step: &'static str,
     pub message: String,
